@@ -14,6 +14,7 @@ META = {
         "Oracle::with_commit the serialize mutex is must-held from the conflict scan to the registration, the scan is "
         "committed.range(instant+1..), the commit closure runs only on the not-conflicted edge, and the registration is "
         "keyed by the visible seqno read after the commit closure's Ok edge and stores this transaction's conflict manager; "
+        "records of committed transactions are pruned only by `retain(ts > get_seqno_safe_to_gc())` (the watermark below every live snapshot); "
         "(4) write_tx takes its snapshot under the same mutex; (5) the single-operation helpers go through the oracle and "
         "never write to the inner keyspace directly, commit passes its own instant and conflict manager; (6) every "
         "reachable arm of has_conflict consults the other transaction's key set before falling through."),
@@ -210,6 +211,49 @@ def run(ctx):
             ctx.ob("R-C07.3", wc, "register-after-successful-commit", dom and keysite_ok and val_ok,
                    "committed.insert(%s, %s) on the commit closure's Ok edge, timestamp read after the commit" % (A.tstr(key), A.tstr(val)) if (dom and keysite_ok and val_ok)
                    else "registration is not (only after the commit's Ok edge; keyed by the visible seqno read after it; storing this tx's conflict manager): dom=%s key=%s val=%s" % (dom, A.tstr(key), A.tstr(val)))
+
+    # ---- R-C07.7 the committed-transaction table is pruned only below the GC watermark
+    if wc:
+        og = ctx.og(wc)
+        rt = [b for b, t in wc.calls() if A.cname(t).startswith("std::collections::BTreeMap") and A.cname(t).endswith("::retain")]
+        others = [b for b, t in wc.calls() if A.cname(t).startswith("std::collections::BTreeMap") and A.cname(t).rsplit("::", 1)[-1] in
+                  ("remove", "clear", "pop_first", "pop_last", "split_off", "extract_if", "drain", "remove_entry")]
+        ctx.ob("R-C07.7", wc, "no-other-removal-from-committed-table", not others, "committed transactions leave the table only through the watermark-guarded retain" if not others else "committed-transaction records are removed by %s" % [A.cname(wc.term(b)).rsplit("::", 1)[-1] for b in others], nontrivial=False)
+        for b in rt:
+            cl = wc.term(b)["args"][1]
+            term = og.of_operand(cl)
+            ok = False
+            detail = "retain predicate not understood"
+            if term.k == "closure":
+                cf = F.fns.get(term.a[0])
+                env = dict(term.a[1])
+                if cf:
+                    cog = A.Origins(cf)
+                    r, neg = A.strip_not(cog.of_local(0))
+                    if r.k == "bin" and r.a[0] in ("Gt", "Ge", "Lt", "Le"):
+                        def is_ts(x):
+                            return x.k == "param" and x.a[0] == 2
+                        def thr_of(x):
+                            ap = A.access_path(x)
+                            if ap and ap[0] == "P1" and len(ap) == 2:
+                                for k, v in env.items():
+                                    if k.lstrip("*&") == ap[1].lstrip("*&"):
+                                        return v
+                            return None
+                        l, rr = r.a[1], r.a[2]
+                        thr = None
+                        keeps_newer = False
+                        if is_ts(l) and thr_of(rr) is not None:
+                            thr = thr_of(rr)
+                            keeps_newer = (r.a[0] in ("Gt", "Ge")) != neg
+                        elif is_ts(rr) and thr_of(l) is not None:
+                            thr = thr_of(l)
+                            keeps_newer = (r.a[0] in ("Lt", "Le")) != neg
+                        if thr is not None:
+                            pure = thr.k == "call" and thr.a[0] == "snapshot_tracker::SnapshotTracker::get_seqno_safe_to_gc"
+                            ok = pure and keeps_newer
+                            detail = "retain(|ts| ts > %s)" % A.tstr(thr)[:100] + ("" if ok else " — the pruning threshold must be exactly the snapshot tracker's GC watermark (a larger value discards conflict records that an older, still open transaction needs for validation)")
+            ctx.ob("R-C07.7", wc, "prune-threshold-is-gc-watermark", ok, detail, wc.loc(b))
 
     # ---- R-C07.4 snapshot under the same mutex
     wt = ctx.fn("tx::optimistic::OptimisticTxDatabase::write_tx", "R-C07.4")
